@@ -236,11 +236,11 @@ func genShdCases(r *Rng, n int, w *bufio.Writer) {
 		c := genShCase(r)
 		switch c.algo {
 		case "legacy":
-			c.ht = uint32(r.Pick(1, 2, 3))
+			c.ht = uint32(r.Pick(1, 2, 3, 1, 2, 3, 0x81, 0x82, 0x83))
 			if c.idx >= len(c.tx.Inputs) {
 				c.idx = 0
 			}
-			if c.ht == 3 {
+			if c.ht&0x1f == 3 {
 				c.idx = 0
 			}
 		case "v0":
